@@ -31,3 +31,76 @@ def match(prop: str, o) -> Optional[Dict[str, Any]]:
 
 def unused(prop: str, used) -> List[Dict[str, Any]]:
     return [e for e in TABLE if e["property"] == prop and not any(u is e for u in used)]
+
+
+# --------------------------------------------------------------------------- C05 R-5.4
+def _prog():
+    from .model import program
+    return program()
+
+
+def _slot_guarantees_comment() -> bool:
+    """CheckCommentLineLen runs only after IsComment matched, and IsComment.run returns True only
+    under check_token(i, [MULT_COMMENT, COMMENT]) is True."""
+    import ast
+    from .facts import registry_model
+    from .model import walk_fn, text
+    prog = _prog()
+    rm = registry_model(prog)
+    if set(rm.live_slots("CheckCommentLineLen")) != {"IsComment"}:
+        return False
+    run = prog.method("IsComment", "run")
+    for n in walk_fn(run.node):
+        if isinstance(n, ast.Return) and isinstance(n.value, ast.Tuple) and text(n.value.elts[0]) == "True":
+            p = n
+            ok = False
+            while p is not None and p is not run.node:
+                from .model import parent
+                q = parent(p)
+                if isinstance(q, ast.If) and any(p is s for s in q.body) and "COMMENT" in text(q.test) and "is True" in text(q.test):
+                    ok = True
+                p = q
+            if not ok:
+                return False
+    return True
+
+
+def _define_raises_unless_rparen() -> bool:
+    import ast
+    from .model import walk_fn, text
+    prog = _prog()
+    fn = prog.method("IsPreprocessorStatement", "check_define")
+    if fn is None:
+        return False
+    for n in walk_fn(fn.node):
+        if isinstance(n, ast.If) and "RPARENTHESIS" in text(n.test) and text(n.test).startswith("not ") \
+                and n.body and isinstance(n.body[0], ast.Raise) and "CParsingError" in text(n.body[0]):
+            return True
+    return False
+
+
+def _include_raises_unless_more_than() -> bool:
+    import ast
+    from .model import walk_fn, text
+    prog = _prog()
+    cp = prog.method("IsPreprocessorStatement", "_check_path")
+    ci = prog.method("IsPreprocessorStatement", "check_include")
+    if cp is None or ci is None:
+        return False
+    a = any(isinstance(n, ast.If) and text(n.test) == "not context.check_token(index, 'MORE_THAN')"
+            and n.body and isinstance(n.body[0], ast.Return) and text(n.body[0].value).startswith("(False")
+            for n in walk_fn(cp.node))
+    b = any(isinstance(n, ast.If) and text(n.test).startswith("not ") and n.body and isinstance(n.body[0], ast.Raise)
+            for n in walk_fn(ci.node))
+    return a and b
+
+
+add("C05", "R-5.4", "rules/check_comment_line_len.py::CheckCommentLineLen.run::while[kinds=COMMENT,MULT_COMMENT]",
+    "infeasible: the check runs only in slot IsComment, whose primary matched a COMMENT/MULT_COMMENT token at the start "
+    "of the statement, so the scan finds it before the end of the token list", _slot_guarantees_comment)
+add("C05", "R-5.4", "rules/check_preprocessor_define.py::CheckPreprocessorDefine.run::while[kinds=RPARENTHESIS]",
+    "infeasible: IsPreprocessorStatement.check_define raises CParsingError unless the macro parameter list is closed by "
+    "RPARENTHESIS, so the statement this check sees contains one", _define_raises_unless_rparen)
+add("C05", "R-5.4", "rules/check_preprocessor_include.py::CheckPreprocessorInclude.run::while[kinds=MORE_THAN]",
+    "infeasible: IsPreprocessorStatement.check_include raises unless _check_path found MORE_THAN (or a STRING, handled by "
+    "the other branch)", _include_raises_unless_more_than)
